@@ -1,6 +1,7 @@
 package vc
 
 import (
+	"time"
 	"fmt"
 	"go/ast"
 	"go/token"
@@ -37,6 +38,10 @@ type FnResult struct {
 	GenS        float64
 }
 
+// GenBudget bounds the symbolic execution of one function under contract (each attempt); zero means no bound. What
+// takes longer is reported as a lost proof, never as a pass.
+var GenBudget time.Duration
+
 type VerifyOpts struct {
 	ForceInt   bool // verify in mathematical-integer mode with exact wrap-around encoding (fallback for index arithmetic)
 	SafetyOnly bool
@@ -66,6 +71,9 @@ func (w *World) newExec(fn *ssa.Function, ct *Contract, opts VerifyOpts, cuts ma
 	}
 	e.SafetyOnly = opts.SafetyOnly
 	e.prune = opts.Prune
+	if GenBudget > 0 {
+		e.deadline = time.Now().Add(GenBudget)
+	}
 	e.RootCt = ct
 	if ct != nil {
 		e.IntMode = ct.Mode == "int"
@@ -139,7 +147,12 @@ func (w *World) VerifyFn(fn *ssa.Function, ct *Contract, opts VerifyOpts) (res *
 			cuts[*restart] = true
 			continue
 		}
-		if strings.HasPrefix(r.OutOfSubset, "path explosion") && !opts.Prune {
+		if opts.Prune && strings.HasPrefix(r.OutOfSubset, "path explosion") {
+			w.pruneFailed++
+		}
+		if strings.HasPrefix(r.OutOfSubset, "path explosion") && !opts.Prune && w.pruneFailed < 2 {
+			// (after two functions of a run for which the second attempt did not help either, it is not tried again:
+			// a change that makes one helper explode makes every lemma through it explode)
 			// most of the paths of an explosion contradict their own earlier branches; a second attempt asks the
 			// solver at every branch (after the first 128) whether both sides are possible
 			opts.Prune = true
